@@ -6,6 +6,9 @@ def run(ctx, res):
     if not ctx.require_roles(res):
         return
     structural.c06(ctx, res)
+    # an owning iterator that yields an entry twice (or keeps yielding after exhaustion) hands the same key and value out twice: the
+    # two-cursor step rules of C12, for the iterator types that copy entries out only
+    structural.c12(ctx, res, with_drops=False, only=set(structural.copy_out_adts(ctx)))
     # an entry that evicts itself / a duplicate that is evicted before it is replaced ends up dropped twice through the
     # stale list node: the ordering obligations of C03 are necessary conditions of exactly-once as well
     from .. import e3
